@@ -42,6 +42,7 @@ class Ent:
         self.path, self.kind, self.mode, self.mtime, self.data = path, kind, mode, mtime, data
 
     def token(self):
+        """FSENTRY of the `pdshmodel pcp` protocol; kind `l` (symbolic link): data = the link's target string"""
         c = "-" if self.kind == "d" else "h" + (self.data.hex() if self.data else "")
         if self.kind == "f" and not self.data:
             c = "h"
@@ -55,11 +56,16 @@ def build_jail(root, ents):
         p = rb if e.path == b"" else rb + b"/" + e.path
         if e.kind == "d":
             os.makedirs(p, exist_ok=True)
+        elif e.kind == "l":
+            os.symlink(e.data, p)
         else:
             with open(p, "wb") as f:
                 f.write(e.data)
     for e in reversed(ents):
         p = rb if e.path == b"" else rb + b"/" + e.path
+        if e.kind == "l":
+            os.utime(p, (e.mtime, e.mtime), follow_symlinks=False)
+            continue
         os.chmod(p, e.mode)
         os.utime(p, (e.mtime, e.mtime))
 
@@ -81,6 +87,9 @@ def snapshot(root):
                 d = f.read()
             out[rel] = dict(kind="f", mode=st.st_mode & 0o7777, sec=st.st_mtime_ns // 10**9,
                             nsec=st.st_mtime_ns % 10**9, data=d)
+        elif stat.S_ISLNK(st.st_mode):
+            out[rel] = dict(kind="l", mode=0o777, sec=st.st_mtime_ns // 10**9, nsec=st.st_mtime_ns % 10**9,
+                            data=os.readlink(p))
         else:
             out[rel] = dict(kind="o", mode=st.st_mode & 0o7777, sec=0, nsec=0, data=None)
     add(rb, b"")
@@ -262,7 +271,7 @@ def changed_paths(before, snap, t0):
             ch.append(path)
         elif b.kind != r["kind"] or b.mode != r["mode"]:
             ch.append(path)
-        elif r["kind"] == "f" and (r["data"] != b.data or r["sec"] != b.mtime or r["nsec"] != 0):
+        elif r["kind"] in ("f", "l") and (r["data"] != b.data or r["sec"] != b.mtime or r["nsec"] != 0):
             ch.append(path)
         elif r["kind"] == "d" and (r["sec"] != b.mtime or r["nsec"] != 0) and r["sec"] < t0 - 2:
             ch.append(path)
